@@ -62,6 +62,7 @@ var c11TypedSchema = tschema.Schema{Types: []tschema.TypeSpec{
 	{Name: "MapMsg3", Kind: "map", Elem: "Msg3"},
 	{Name: "ListMsg3", Kind: "list", Elem: "Msg3"},
 	{Name: "ListString", Kind: "list", Elem: "String"},
+	{Name: "Pair", Kind: "struct", Repr: "stringjoin", Delim: ":", Fields: []tschema.FieldSpec{{Name: "a", Type: "String"}, {Name: "b", Type: "String"}}},
 }}
 
 var c11TypedProtos = func() map[string]datamodel.NodePrototype {
@@ -71,7 +72,11 @@ var c11TypedProtos = func() map[string]datamodel.NodePrototype {
 	}
 	bm, bs := bindnode.Prototype(nil, ts.TypeByName("MapMsg3")), bindnode.Prototype(nil, ts.TypeByName("Msg3"))
 	bl, bls := bindnode.Prototype(nil, ts.TypeByName("ListMsg3")), bindnode.Prototype(nil, ts.TypeByName("ListString"))
+	bstr, bbytes, bpair := bindnode.Prototype(nil, ts.TypeByName("String")), bindnode.Prototype(nil, ts.TypeByName("Bytes")), bindnode.Prototype(nil, ts.TypeByName("Pair"))
 	return map[string]datamodel.NodePrototype{
+		// types whose representation is a scalar: a string, bytes, a struct joined into one string
+		"bindnode.string": bstr, "bindnode.string.repr": bstr.Representation(), "bindnode.bytes.repr": bbytes.Representation(),
+		"bindnode.join": bpair, "bindnode.join.repr": bpair.Representation(),
 		"gendemo.map": gendemo.Type.Map__String__Msg3, "gendemo.map.repr": gendemo.Type.Map__String__Msg3__Repr,
 		"gendemo.struct": gendemo.Type.Msg3, "gendemo.struct.repr": gendemo.Type.Msg3__Repr,
 		"bindnode.map": bm, "bindnode.map.repr": bm.Representation(),
@@ -80,9 +85,20 @@ var c11TypedProtos = func() map[string]datamodel.NodePrototype {
 	}
 }()
 
-var c11TypedNames = []string{"gendemo.map", "gendemo.map.repr", "gendemo.struct", "gendemo.struct.repr", "bindnode.map", "bindnode.map.repr", "bindnode.struct", "bindnode.struct.repr", "bindnode.list", "bindnode.list.repr", "bindnode.strlist"}
+var c11TypedNames = []string{"gendemo.map", "gendemo.map.repr", "gendemo.struct", "gendemo.struct.repr", "bindnode.map", "bindnode.map.repr", "bindnode.struct", "bindnode.struct.repr", "bindnode.list", "bindnode.list.repr", "bindnode.strlist",
+	"bindnode.string", "bindnode.string.repr", "bindnode.bytes.repr", "bindnode.join", "bindnode.join.repr"}
 
 func c11TypedValue(name string, a, b int) val.V {
+	switch name {
+	case "bindnode.string", "bindnode.string.repr":
+		return val.MkString(fmt.Sprintf("s%d-%d", a, b))
+	case "bindnode.bytes.repr":
+		return val.MkBytes([]byte(fmt.Sprintf("b%d-%d", a, b)))
+	case "bindnode.join.repr":
+		return val.MkString(fmt.Sprintf("x%d:y%d", a, b))
+	case "bindnode.join":
+		return val.MkMap(val.Ent{K: "a", V: val.MkString(fmt.Sprintf("x%d", a))}, val.Ent{K: "b", V: val.MkString(fmt.Sprintf("y%d", b))})
+	}
 	if strings.Contains(name, "struct") {
 		return msg3(int64(a), int64(b), int64(a*b))
 	}
